@@ -23,7 +23,7 @@ func endsInReturn(b *ast.BlockStmt) bool {
 }
 
 func main() {
-	mode := flag.String("mode", "invert", "invert|early|forbreak|ifswitch")
+	mode := flag.String("mode", "invert", "invert|early|forbreak|ifswitch|guard")
 	flag.Parse()
 	for _, path := range flag.Args() {
 		if strings.HasSuffix(path, "_test.go") {
@@ -120,6 +120,21 @@ func main() {
 						}
 					}
 				}
+				return true
+			})
+		case "guard":
+			// in a function without results whose last statement is `if c { A }` (no else): `if !(c) { return }; A`
+			ast.Inspect(f, func(n ast.Node) bool {
+				fd, ok := n.(*ast.FuncDecl)
+				if !ok || fd.Body == nil || (fd.Type.Results != nil && len(fd.Type.Results.List) > 0) || len(fd.Body.List) == 0 {
+					return true
+				}
+				last, ok := fd.Body.List[len(fd.Body.List)-1].(*ast.IfStmt)
+				if !ok || last.Else != nil || last.Init != nil {
+					return true
+				}
+				g := &ast.IfStmt{Cond: &ast.UnaryExpr{Op: token.NOT, X: &ast.ParenExpr{X: last.Cond}}, Body: &ast.BlockStmt{List: []ast.Stmt{&ast.ReturnStmt{}}}}
+				fd.Body.List = append(fd.Body.List[:len(fd.Body.List)-1], g, &ast.BlockStmt{List: last.Body.List})
 				return true
 			})
 		case "early":
